@@ -137,6 +137,7 @@ class C19(PropBase):
         "errors, ==, hash, repr, ordering, copy, deepcopy, pickle round trip, frozen-ness, defaults, slot layout). Non-trivial: "
         "the operation follows a failed decoration, a decoration of a same-named class, or compares a class with a base; "
         "distinct = distinct (operation digest, decoration-history digest) pairs."
+        ' Subclasses may re-declare an inherited field with another default; user state protocols come in dict, tuple, renamed-key and versioned shapes.'
     )
     ASSUMPTIONS = ["pickling binds the class under test to its module attribute for the duration of the round trip, as the decorator's use as `@slotted` does",
                    "classes whose __post_init__ sets undeclared attributes are outside the statement (slots forbid them by design)"]
